@@ -175,6 +175,11 @@ func runC07Case(id string, c *c07Case) {
 	case c.OnClose != 2 && o.Goroutines1 > o.Goroutines0:
 		cs.Oracle = fmt.Sprintf("%d goroutine(s) outlive Close (before open %d, after close %d)", o.Goroutines1-o.Goroutines0, o.Goroutines0, o.Goroutines1)
 		cs.Sig = "C07:leak:" + c.Driver + ":" + c.State
+	case c.OnClose == 2 && o.Goroutines1 > o.Goroutines0+1:
+		// a transport whose blocked read stays blocked after Close keeps ONE goroutine (the channel
+		// reader parked inside that read, which nothing can unblock); any further one is a leak
+		cs.Oracle = fmt.Sprintf("%d goroutine(s) outlive Close besides the reader parked in the transport's read that stays blocked (before open %d, after close %d)", o.Goroutines1-o.Goroutines0-1, o.Goroutines0, o.Goroutines1)
+		cs.Sig = "C07:leak:" + c.Driver + ":" + c.State
 	case race:
 		cs.Oracle = "data race reported: " + raceSummary(stderr)
 		cs.Sig = "C07:race:" + raceSite(stderr)
